@@ -1,6 +1,6 @@
 (* C10 -- Escaped command lines parse back to the original argv.
    Statements only; proofs are in Proof/CmdLine.v. *)
-From Murex Require Import Base.Outcome Base.Bytes Model.StmtParse Gen.EscapeTable Check.C10 Proof.CmdLine.
+From Murex Require Import Base.Outcome Base.Bytes Model.StmtParse Gen.EscapeTable Gen.NoTokenise Check.C10 Proof.CmdLine Proof.CmdLineRoundtrip.
 Open Scope N_scope.
 
 (* escape.CommandLine (sequential strings.Replace) is a byte-wise encoding, for
@@ -31,6 +31,60 @@ Theorem C10_cmdline_bytewise : forall argv,
 Proof. exact cmdline_bytewise. Qed.
 Print Assumptions C10_cmdline_bytewise.
 
+(* HEADLINE, generic in the table: for every escape table that satisfies the
+   computable conditions tbl_ok (one-byte keys; every key maps to backslash + a
+   byte the parser's escape rule maps back; every byte the statement parser treats
+   specially, other than the known-finding ones, is a key; no key is a bare-word
+   byte), every plain command word, and argument lists of ANY length whose
+   elements have ANY length: if no argument is empty or contains an unescaped
+   metacharacter (; { } ~ backtick && %[ %{) and the first argument does not start
+   with an assignment operator, then the escaped, blank-joined line is ONE
+   statement whose command and parameters are exactly the argv. *)
+Theorem C10_roundtrip_generic : forall tbl, tbl_ok tbl = true -> forall cf e cmd args,
+  plain_cmd cmd = true -> in_list cmd (c_notok cf) = false ->
+  forallb safe_arg args = true -> first_arg_ok tbl args = true ->
+  block_first cf e (escape_join tbl [32] (cmd :: args))
+  = Ok {| r_cmd := cmd; r_params := args; r_rest := 0 |}.
+Proof. exact roundtrip_generic. Qed.
+Print Assumptions C10_roundtrip_generic.
+
+(* the table regenerated from utils/escape/escape.go NOW satisfies the conditions *)
+Theorem C10_tbl_ok_now : tbl_ok escape_pairs = true.
+Proof. exact tbl_ok_now. Qed.
+Print Assumptions C10_tbl_ok_now.
+
+(* ... hence the round trip for what argvToCmdLineStr / esccli produce today *)
+Theorem C10_cmdline_roundtrip : forall cf e cmd args,
+  plain_cmd cmd = true -> in_list cmd (c_notok cf) = false ->
+  forallb safe_arg args = true -> first_arg_ok escape_pairs args = true ->
+  block_first cf e (cmdline (cmd :: args))
+  = Ok {| r_cmd := cmd; r_params := args; r_rest := 0 |}.
+Proof. exact cmdline_roundtrip. Qed.
+Print Assumptions C10_cmdline_roundtrip.
+
+Theorem C10_cmdline_roundtrip_single : forall cf e cmd a,
+  plain_cmd cmd = true -> in_list cmd (c_notok cf) = false ->
+  safe_arg a = true -> assign_start (escape_arg escape_pairs a) = false ->
+  block_first cf e (cmdline [cmd; a]) = Ok {| r_cmd := cmd; r_params := [a]; r_rest := 0 |}.
+Proof. exact cmdline_roundtrip_single. Qed.
+Print Assumptions C10_cmdline_roundtrip_single.
+
+(* the guards are EXACTLY the complement of the known-finding classes 1-3 *)
+Theorem C10_guards_iff_unclassified : forall cmd args home nc,
+  classify (model_case (cmd :: args) home nc) = 0 <->
+  forallb safe_arg args = true /\ first_arg_ok escape_pairs args = true.
+Proof. exact guards_iff_unclassified. Qed.
+Print Assumptions C10_guards_iff_unclassified.
+
+(* ... so: every argv that is not a listed known finding satisfies, in the model,
+   the predicate the check evaluates on the implementation *)
+Theorem C10_model_meets_spec : forall cmd args home nc,
+  plain_cmd cmd = true -> in_list cmd no_tokenise_cmds = false ->
+  classify (model_case (cmd :: args) home nc) = 0 ->
+  spec_ok (model_case (cmd :: args) home nc) = true.
+Proof. exact model_meets_spec. Qed.
+Print Assumptions C10_model_meets_spec.
+
 (* F10 (known findings 1-3): the model of the code does not round-trip these *)
 Theorem C10_cmdline_roundtrip_refuted :
   w [[101;99;104;111]; [97;59;98]] = false /\
@@ -54,6 +108,9 @@ Proof. exact cmdline_roundtrip_instance. Qed.
 Print Assumptions C10_cmdline_roundtrip_instance.
 
 Example C10_nonvacuous :
+  plain_cmd [101;99;104;111] = true /\ in_list [101;99;104;111] no_tokenise_cmds = false /\
+  forallb safe_arg [[36;120;32;38;37;93;91]; [97;10;39;34;92]; [45;62;61;62;47;35]] = true /\
+  first_arg_ok escape_pairs [[36;120;32;38;37;93;91]; [97;10;39;34;92]; [45;62;61;62;47;35]] = true /\
   single_keys escape_pairs = true /\
   classify (model_case [[101;99;104;111]; [97;59;98]] [47] false) = 1 /\
   classify (model_case [[101;99;104;111]; [36;120]] [47] false) = 0 /\
